@@ -430,6 +430,26 @@ def nest_track(F):
             rng = None
             if nb and len(nb[0]["args"]) >= 2:
                 rng = place_path(nb[0]["args"][1])
+            if rng is None:
+                # the slice is cut in place (`wasm.get(R.start - start .. R.end - start)`, possibly through lets / let-else):
+                # R is the range whose .start/.end the bytes argument derives from
+                from vlib.facts import binding_site
+                seen_, todo_, cands = set(), [c["args"][0]], set()
+                while todo_ and len(seen_) < 40:
+                    e_ = todo_.pop()
+                    for y in walk(e_):
+                        if y.get("k") == "Field" and y["name"] in ("start", "end") and place_path(y["base"]):
+                            cands.add(place_path(y["base"]))
+                        if y.get("k") == "Path" and y.get("res", {}).get("r") == "local" and y["res"]["hid"] not in seen_:
+                            seen_.add(y["res"]["hid"])
+                            _p, scr_, _k = binding_site(fn["body"], y["res"]["hid"])
+                            if scr_ is not None:
+                                todo_.append(scr_)
+                if len(cands) == 1:
+                    rng = next(iter(cands))
+                elif not cands:
+                    r.undecided("parse_comp: how the bytes of a nested component are cut out of the input was not recognised")
+                    continue
             st_arg = None
             for a_ in c["args"][1:]:
                 if a_.get("ty") == "usize":
